@@ -372,6 +372,7 @@ func saveReplay[C any](id string, c C, fs []Finding) string {
 // RunProperty is the body of every TestCxx.
 func RunProperty[C any](t *testing.T, p Property[C]) {
 	start := time.Now()
+	curT = t
 	ev := newEvid(p.ID)
 	ev.Rule = p.Rule
 	ev.Assumptions = p.Assumptions
@@ -483,6 +484,7 @@ func RunProperty[C any](t *testing.T, p Property[C]) {
 		fs  []Finding
 	}
 	ok := t.Run("rapid", func(t *testing.T) {
+		curT = t
 		rapid.Check(t, func(rt *rapid.T) {
 			c := p.Gen(rt)
 			fs, _ := ev.filterKnown(safeRun(p, c, ev))
@@ -493,6 +495,7 @@ func RunProperty[C any](t *testing.T, p Property[C]) {
 			}
 		})
 	})
+	curT = t
 	if !ok {
 		if lastFail.set {
 			report(lastFail.c, lastFail.fs, "")
